@@ -320,7 +320,7 @@ func (d *docGen) damage(doc *jnode, i int) string {
 		doc.set("elements", jobj())
 		return "elements-object"
 	}
-	e := es.arr[d.rng.Intn(len(es.arr))]
+	e := es.arr[len(es.arr)/2+d.rng.Intn(len(es.arr)-len(es.arr)/2)] // second half of the document
 	if i%2 == 0 {
 		e = es.arr[len(es.arr)-1] // the last element: faults late in a document
 	}
